@@ -104,3 +104,11 @@ const VerifC15PoolLimit = poolLimit
 
 // VerifC15VerifyPool is the build-time constant verifyPool.
 const VerifC15VerifyPool = verifyPool
+
+// VerifC15MemoryGasCost calls memoryGasCost on a memory of the given (small)
+// length and last gas cost; memoryGasCost itself allocates nothing.
+func VerifC15MemoryGasCost(memLen, last, newSize uint64) (uint64, uint64, error) {
+	m := &Memory{store: make([]byte, memLen), lastGasCost: last}
+	fee, err := memoryGasCost(m, newSize)
+	return fee, m.lastGasCost, err
+}
